@@ -72,3 +72,10 @@ CORPUS += [
     Mut('c16-kinetic-energy-einsum-contracts-one-index-twice', 'torchtree/inference/hmc/hamiltonian.py', 'Hamiltonian.kinetic_energy', 'kinetic_energy = torch.dot(momentum, inverse_mass_matrix @ momentum) * 0.5',
         'kinetic_energy = torch.einsum("...i,ij,...i->...", momentum, inverse_mass_matrix, momentum) * 0.5', expect=[('C16.K', 'Hamiltonian.kinetic_energy::half-p-Minv-p')]),
 ]
+CORPUS += [
+    Mut('c16-step-size-search-inside-the-first-proposal', 'torchtree/inference/hmc/operator.py', '', "        max_trials = 10\n        trial = 0\n",
+        "        if self._accept + self._reject == 0:\n            find_reasonable_step_size(self._integrator, self.parameters, self._hamiltonian, self.mass_matrix, self.inverse_mass_matrix)\n"
+        "        max_trials = 10\n        trial = 0\n", mode='text', expect=[('C16.K', 'HMCOperator._step::one-trajectory-per-proposal')]),
+    Mut('c16-benign-step-size-reported-inside-the-proposal', 'torchtree/inference/hmc/operator.py', '', "        max_trials = 10\n        trial = 0\n",
+        "        if self._accept + self._reject == 0:\n            print(f'Step size: {self.id} = {self._integrator.step_size}')\n        max_trials = 10\n        trial = 0\n", mode='text', benign=True),
+]
